@@ -244,22 +244,57 @@ def gamma(ctx, R="R-C20-gamma"):
     A = S.sym("ALPHA")
     lnc_n = S.subst(lnc, {alpha: A}) if lnc is not None else None
     want = S.sub(S.mul(n_, S.call("log", A)), S.call("log", S.call("factorial", S.sub(n_, S.ONE))))
-    ctx.check(lnc_n is not None and S.compare(lnc_n, want, domain={})["verdict"] == "equal", R, f, f.node,
+    r = S.compare(lnc_n, want, domain={"n": [Fraction(1), Fraction(2), Fraction(4)], "ALPHA": [Fraction(1, 3), Fraction(2)]}, expand_logs=True) if lnc_n is not None else {"verdict": "differ"}
+    if r["verdict"] == "inconclusive":
+        raise AnalysisError("%s: ln c: %s" % (R, r.get("reason")))
+    ctx.check(r["verdict"] == "equal", R, f, f.node,
               "ln c = order * ln alpha - ln (order-1)!", "ln c is %s" % (S.show(lnc_n)[:120] if lnc_n is not None else None))
     sup = [n for n in f.body_nodes() if isinstance(n, ast.Assign) and astq.is_name(n.targets[0], "ret") and isinstance(n.value, ast.Call)]
     ok = len(sup) == 1 and astq.in_texts(sup[0].value, ("np.arange(width-1,-1,-1,dtype=float)",))
     ctx.check(ok, R, f, sup[0] if sup else MISSING(f.node), "the support is time-reversed: arange(width-1, -1, -1)",
               "support is %s" % (astq.text(sup[0].value) if sup else None))
     st = [n for n in f.body_nodes() if isinstance(n, ast.Assign) and isinstance(n.targets[0], ast.Subscript) and astq.is_name(n.targets[0].value, "ret")]
-    ok = len(st) == 1 and astq.eq_text(st[0].value, "ret[:offs]**(self.order-1)*np.exp(-alpha*ret[:offs]+ln_c)")
-    ctx.check(ok, R, f, st[0] if st else MISSING(f.node), "samples are t^(order-1) exp(-alpha t + ln c)", "density is %s" % (astq.text(st[0].value) if st else None))
+    ctx.need(len(st) == 1, R, "the store of the density into the support not found")
     offs = env.get("offs")
-    oko = False
-    if offs is not None:
-        for tests, leaf in cc.strip_cond(offs):
-            if any(l == "T" and S.show(t) == "(n > 1)" for l, t in tests):
-                oko = S.compare(leaf, S.sub(width, S.ONE), domain={})["verdict"] == "equal"
-    ctx.check(oko, R, f, f.node, "for order > 1 the last sample (t = 0) stays 0", "offs for order > 1 is not width - 1")
+    ctx.need(offs is not None, R, "offs not found")
+    off_leaf = {}
+    for tests, leaf in cc.strip_cond(offs):
+        for l, t in tests:
+            if S.show(t) == "(n > 1)":
+                off_leaf[l == "T"] = leaf
+    ctx.need(set(off_leaf) == {True, False}, R, "offs is not decided by order > 1")
+    ctx.check(S.compare(off_leaf[True], S.sub(width, S.ONE), domain={})["verdict"] == "equal", R, f, f.node,
+              "for order > 1 the last sample (t = 0) stays 0", "offs for order > 1 is %s, not width - 1" % S.show(off_leaf[True]))
+    ctx.check(S.compare(off_leaf[False], width, domain={})["verdict"] == "equal", R, f, f.node,
+              "for order 1 the density is evaluated on the whole support, t = 0 included (its maximum)", "offs for order 1 is %s, not width" % S.show(off_leaf[False]))
+    # the density itself, with T the support samples being overwritten
+    tgt = st[0].targets[0]
+    V = ev.eval_at(st[0], st[0].value)
+    Told = ev.eval_at(st[0], tgt)
+    T, LC = S.sym("T"), S.sym("LNC")
+    Vn = S.subst(V, {Told: T})
+    Vn = S.subst(Vn, {lnc: LC}) if lnc is not None else Vn
+    Vn = S.subst(Vn, {alpha: A})
+    ctx.need("T" in S.symbols(Vn), R, "the density is not computed from the support samples it overwrites")
+    want_d = S.mul(S.power(T, S.sub(n_, S.ONE)), S.call("exp", S.add(S.neg(S.mul(A, T)), LC)))
+    dom = {"T": [Fraction(1), Fraction(3)], "n": [Fraction(1), Fraction(2), Fraction(3)], "ALPHA": [Fraction(1, 3), Fraction(2)], "LNC": [Fraction(-1), Fraction(1, 2)]}
+    r = S.compare(Vn, want_d, domain=dom)
+    if r["verdict"] != "equal":
+        # the same density written in the log domain?
+        r2 = S.compare(S.call("log", Vn), S.call("log", want_d), domain=dom, expand_logs=True)
+        if r2["verdict"] == "equal":
+            logs_of_t = [x for x in S.walk(Vn) if x.op == "call" and x.args[0] == "log" and "T" in S.symbols(x)]
+            ctx.check(not logs_of_t, R, f, st[0], "the density needs no logarithm of the support samples",
+                      "the density takes %s of the support samples; for order 1 the support includes t = 0 (offs = width), where "
+                      "(order-1) * log(0) = 0 * -inf = NaN: the window's last and largest sample is NaN instead of alpha" % S.show(logs_of_t[0]) if logs_of_t else "")
+        elif r2["verdict"] == "differ" or r["verdict"] == "differ":
+            w = r if r["verdict"] == "differ" else r2
+            ctx.bad(R, f, st[0], "density is %s, not t^(order-1) exp(-alpha t + ln c) (e.g. at %s)" % (S.show(Vn)[:120], w.get("witness")),
+                    "samples are t^(order-1) exp(-alpha t + ln c)")
+        else:
+            raise AnalysisError("%s: density: %s" % (R, r.get("reason")))
+    else:
+        ctx.ok(R, f.loc(st[0]), "samples are t^(order-1) exp(-alpha t + ln c)")
 
 
 # ----------------------------------------------------------------------- gauss
@@ -278,6 +313,17 @@ def gauss(ctx, R="R-C20-gauss"):
     if not ok_aff:
         return
     z = v.args[0].args[0]
+    # absolute-resolution rule: a tail probability formed as c + k*erf(.) is a multiple of 2**-53 and cannot resolve
+    # min(p, 1-p) between 1e-20 and 1e-16, where the property still demands 1e-6 accuracy (erfc has to be used)
+    for x in S.walk(z):
+        if x.op == "add" and any(S.is_num(a) and a.value != 0 for a in x.args):
+            for a in x.args:
+                terms = a.args if a.op == "mul" else (a,)
+                if any(t.op == "call" and isinstance(t.args[0], str) and t.args[0].split(".")[-1] == "erf" for t in terms):
+                    ctx.bad(R, f, f.node, "a probability is formed as %s: in float64 this is a multiple of 2**-53 (1.1e-16), so tail probabilities "
+                            "between 1e-20 and 1e-16 are not resolved and the quantile there is off by far more than 1e-6 standard deviations "
+                            "(catastrophic cancellation; erfc would be needed)" % S.show(x)[:80], "no cancellation in the tails")
+                    return
     # z = cond(p < 1/2, -z0, z0)
     ok_sign = z.op == "cond" and z.args[0] == S.cmp("<", P, S.lift(Fraction(1, 2))) and z.args[1] == S.neg(z.args[2])
     ctx.check(ok_sign, R, f, f.node, "the sign is restored for p < 1/2", "sign handling is %s" % S.show(z)[:100])
